@@ -175,12 +175,20 @@ fn num<const B: usize, const L: usize>(x: usize) -> Uint<B, L> {
 fn conv<const B: usize, const L: usize>(op: &str, a: Uint<B, L>, m: Uint<B, L>, k: usize) -> (Uint<B, L>, bool) {
     use ruint::UintTryTo;
     fn via<const B: usize, const L: usize, const K: usize, const KL: usize>(op: &str, a: Uint<B, L>, m: Uint<B, L>) -> (Uint<B, L>, bool) {
-        let r: Result<Uint<K, KL>, _> = a.uint_try_to();
+        // both directions of the conversion traits are separate impls (`x.uint_try_to()` / `T::uint_try_from(x)`, and the
+        // wrapping / saturating pairs): which one a step uses is a deterministic function of its operand (seed Q4-A changed
+        // only the `*_from` direction)
+        use ruint::UintTryFrom;
+        let from_dir = a.as_limbs().first().copied().unwrap_or(0) & 2 == 0;
+        let r: Result<Uint<K, KL>, _> = if from_dir { Uint::<K, KL>::uint_try_from(a).map_err(|_| ()) } else { a.uint_try_to().map_err(|_| ()) };
         let fits = r.is_ok();
         match op {
+            "wto" if from_dir => (Uint::<B, L>::wrapping_from(Uint::<K, KL>::wrapping_from(a)), fits),
+            "sto" if from_dir => (Uint::<B, L>::saturating_from(Uint::<K, KL>::saturating_from(a)), fits),
             "wto" => (a.wrapping_to::<Uint<K, KL>>().wrapping_to::<Uint<B, L>>(), fits),
             "sto" => (a.saturating_to::<Uint<K, KL>>().saturating_to::<Uint<B, L>>(), fits),
             _ => match r {
+                Ok(x) if from_dir => (Uint::<B, L>::uint_try_from(x).ok().expect("way back"), true),
                 Ok(x) => (Uint::<B, L>::from(x), true),       // panics if the way back does not fit
                 Err(_) => (m, false),
             },
